@@ -27,6 +27,13 @@ mod c23;
 mod childsrv;
 mod fuzzrun;
 mod c38;
+mod equery;
+mod c14;
+mod c15;
+mod c16;
+mod c17;
+mod c18;
+mod c19;
 mod c05;
 mod c26;
 mod c27;
@@ -116,6 +123,12 @@ fn main() {
         "C03" => c03::main(tier, replay.clone()),
         "C28" => c28::main(tier, replay.clone()),
         "C29" => c29::main(tier, replay.clone()),
+        "C14" => c14::main(tier, replay.clone()),
+        "C15" => c15::main(tier, replay.clone()),
+        "C16" => c16::main(tier, replay.clone()),
+        "C17" => c17::main(tier, replay.clone()),
+        "C18" => c18::main(tier, replay.clone()),
+        "C19" => c19::main(tier, replay.clone()),
         "C20" => c20::main(tier, replay.clone()),
         "C41" => c41::main(tier, replay.clone()),
         "C24" => c24::main(tier, replay.clone()),
